@@ -25,6 +25,7 @@ import (
 
 var (
 	serializableType    = reflect.TypeOf((*serix.Serializable)(nil)).Elem()
+	deserializableType  = reflect.TypeOf((*serix.Deserializable)(nil)).Elem()
 	errCustom           = errors.New("custom type: malformed encoding")
 	cuTable, cuPristine [512]byte
 )
@@ -177,6 +178,51 @@ func (c *CuSelfC) Decode(b []byte) (int, error) {
 	c.Raw = selfRaw(p)
 
 	return n, nil
+}
+
+// CuPR: Encode AND Decode declared on the pointer receiver (the usual idiom for a type that fills itself in Decode), with
+// serix tags on its fields, held by value in fields / elements / map values and at the top: API.decode finds Decode through
+// value.Addr(), so API.encode has to find Encode through the address as well (fix in /repo) — before the fix Encode wrote
+// the reflective struct form (3 bytes) that the type's own Decode refuses.
+type CuPR struct {
+	A uint8  `serix:""`
+	B uint16 `serix:""`
+}
+
+func (c *CuPR) Encode() ([]byte, error) { return freshEncode(c.A, c.B) }
+func (c CuPR) CustomFixed() int         { return 3 }
+func (c *CuPR) FillRandom(r *hx.Rng)    { c.A, c.B = uint8(r.Intn(256)), uint16(r.Intn(65536)) }
+
+func (c *CuPR) Decode(b []byte) (int, error) {
+	p, n, err := customDecode(b, 3)
+	if err != nil {
+		return 0, err
+	}
+	c.A, c.B = p[0], uint16(p[1])|uint16(p[2])<<8
+
+	return n, nil
+}
+
+// isCustomType: serix delegates to the type's own Encode / Decode — the type implements Serializable itself, or (held by
+// value) its pointer type implements both Serializable and Deserializable.
+func isCustomType(t reflect.Type) bool {
+	if t.Implements(serializableType) {
+		return true
+	}
+
+	return t.Kind() != reflect.Ptr && t.Kind() != reflect.Interface &&
+		reflect.PointerTo(t).Implements(serializableType) && reflect.PointerTo(t).Implements(deserializableType)
+}
+
+// customEncode calls the Encode method of a custom value, through its address when the method has a pointer receiver.
+func customEncode(v reflect.Value) ([]byte, error) {
+	if e, ok := v.Interface().(interface{ Encode() ([]byte, error) }); ok {
+		return e.Encode()
+	}
+	p := reflect.New(v.Type())
+	p.Elem().Set(v)
+
+	return p.Interface().(interface{ Encode() ([]byte, error) }).Encode()
 }
 
 var (
